@@ -4,9 +4,11 @@ import (
 	"bytes"
 	"crypto/sha256"
 	"fmt"
+	"time"
 
 	"github.com/go-i2p/common/data"
 	"github.com/go-i2p/common/destination"
+	"github.com/go-i2p/common/keys_and_cert"
 	"github.com/go-i2p/common/router_identity"
 	"github.com/go-i2p/common/router_info"
 
@@ -193,6 +195,45 @@ func runC07(c *core.Ctx) {
 			c.Bucket("single-byte-difference-pairs")
 			if ri.Equal(o) || o.Equal(ri) {
 				c.Violate("router_identity.RouterIdentity.Equal", "different-bytes-compare-equal", gen.Shape{"pos": p, "sig": sig, "crypto": cr}, b2, fmt.Sprintf("identities differing at byte %d compare equal", p))
+			}
+		}
+		// identities assembled by the caller: through NewPrivateKeysAndCert (the bytes are the parts as
+		// given: key || padding || key || certificate), and as a struct literal whose padding is not
+		// filled in (nil) where validation accepts that; every route to a hash must agree with
+		// SHA-256 of the identity's own serialisation
+		if kc, ok, err := lib.BuildKeyCert(m.Cert); ok && err == nil {
+			pk, e1 := lib.CryptoKeyOf(cr, m.CryptoKey())
+			spk, e2 := lib.SigningKeyOf(sig, m.SigningKey())
+			if e1 == nil && e2 == nil {
+				if pkac, err := keys_and_cert.NewPrivateKeysAndCert(kc, pk, lib.PaddingArg(m), spk, []byte{1}, []byte{2}); err == nil && pkac != nil {
+					if pb, err := pkac.KeysAndCert.Bytes(); err != nil || !bytes.Equal(pb, b) {
+						c.Violate("keys_and_cert.NewPrivateKeysAndCert", "bytes", sh, b, "the identity inside a PrivateKeysAndCert does not serialise to key || padding || key || certificate as given: "+describeDiff(b, pb))
+					}
+					c.Bucket("private-keys-and-cert-identity")
+				}
+				lit := &keys_and_cert.KeysAndCert{KeyCertificate: kc, ReceivingPublic: pk, Padding: nil, SigningPublic: spk}
+				if lit.Validate() == nil {
+					if lb, err := lit.Bytes(); err == nil {
+						id := &router_identity.RouterIdentity{KeysAndCert: lit}
+						want := sha256.Sum256(lb)
+						if ib, err := id.Bytes(); err != nil || !bytes.Equal(ib, lb) {
+							c.Violate("router_identity.RouterIdentity.Bytes", "bytes", sh, lb, "RouterIdentity.Bytes() differs from its KeysAndCert's serialisation (identity assembled as a literal, padding not filled in)")
+						}
+						ad := id.AsDestination()
+						if h, err := ad.Hash(); err != nil || h != want {
+							c.Violate("router_identity.RouterIdentity.AsDestination", "hash-not-sha256-of-bytes", sh, lb, fmt.Sprintf("Hash()=%x err=%v, SHA-256(bytes)=%x", h, err, want))
+						}
+						if k7, err := rm.NewSigKey(7, r); err == nil && sig == 7 {
+							priv, _ := lib.LibSigningPrivateKey(k7)
+							if nri, err := router_info.NewRouterInfo(id, time.UnixMilli(1700000000000), nil, map[string]string{}, priv, 7); err == nil && nri != nil {
+								if h, err := nri.IdentHash(); err != nil || [32]byte(h) != want {
+									c.Violate("router_info.RouterInfo.IdentHash", "hash-not-sha256-of-bytes", gen.Shape{"sig": sig, "crypto": cr, "class": "identity assembled as a literal"}, lb, fmt.Sprintf("IdentHash()=%x err=%v, SHA-256(identity bytes)=%x", h, err, want))
+								}
+							}
+						}
+						c.Bucket("literal-identity-with-unfilled-padding")
+					}
+				}
 			}
 		}
 		// RouterInfo.IdentHash over an info carrying this identity
